@@ -49,6 +49,9 @@ let rec find_pos = function
   | [] -> None
 let rec find_class = function "CLASS" :: c :: _ -> c | _ :: r -> find_class r | [] -> ""
 
+(* argv[1] = C12: the same stream judged for C12's diagnostics clause only (position classes) *)
+let prop = if Array.length Sys.argv > 1 then Sys.argv.(1) else "C06"
+
 let () = run (fun case impl ->
   let (files, root, on_disk, tags) = parse_case case in
   let files' = Stdlib.List.map (fun (n, b) -> (str_of_string (basename n), b)) files in
@@ -66,6 +69,7 @@ let () = run (fun case impl ->
   note_nontrivial case;
   match judge files' st ds expect pos with
   | None -> ()
+  | Some v when prop = "C12" && v <> VWrongPosition && v <> VDiagOutOfBounds -> ()
   | Some v -> specfail (class_name v) case impl
                (match v, pos with
                 | VWrongPosition, Some e -> Printf.sprintf "first diagnostic at line %d col %d" (int_of_n e.d_line) (int_of_n e.d_col)
